@@ -29,27 +29,32 @@ var stepNames = []string{"start", "options", "describe", "setup0", "setup1", "pl
 
 // Spec is one scenario (runs in a child process).
 type Spec struct {
-	ID           int        `json:"id"`
-	Target       string     `json:"target"` // "server" | "stream" | "client"
-	Peers        []PeerSpec `json:"peers"`  // target client: Peers[0] is the client under test
-	ClosePoint   int        `json:"close_point"`
-	During       bool       `json:"during"`
-	DelayUs      int        `json:"delay_us"`
-	Hammer       bool       `json:"hammer"`        // a goroutine hammering WritePacketRTP across the Close
-	Joiner       bool       `json:"joiner"`        // a further reader joins while Close runs
-	PeerTeardown bool       `json:"peer_teardown"` // parked peers tear down concurrently with the Close
-	Noise        int        `json:"noise"`         // goroutines spinning runtime.Gosched around the Close
-	SlowCbUs     int        `json:"slow_cb_us"`    // packet callbacks take this long (a slow handler keeps the delivering goroutine busy)
-	Procs        int        `json:"procs"`         // GOMAXPROCS
-	WriteTimeout int        `json:"write_timeout_ms"`
-	ServerKind   string     `json:"server_kind,omitempty"`  // target client: "real" | "mute" | "stall" | "script"
-	BurstStep    int        `json:"burst_step,omitempty"`   // script server: the burst goes out with the answer to the request of this number
-	Burst        []string   `json:"burst,omitempty"`        // script server: req-options | req-setparam | req-getparam | frame | frame-bad-channel | response-stray | garbage
-	BurstFirst   bool       `json:"burst_first,omitempty"`  // the burst precedes the answer in the write
-	Blackhole    bool       `json:"blackhole,omitempty"`    // client: inbound UDP datagrams are dropped at its packet conns (automatic switch to TCP after InitialUDPReadTimeout)
-	ScriptSetup  string     `json:"script_setup,omitempty"` // script server: answer to a UDP SETUP: "461" | "tcp-answer" | "udp-silent" (UDP accepted, nothing ever sent)
-	Redirect     bool       `json:"redirect,omitempty"`     // script server: the first DESCRIBE is answered with 302 to another path
-	Seed         uint64     `json:"seed"`
+	ID            int        `json:"id"`
+	Target        string     `json:"target"` // "server" | "stream" | "client"
+	Peers         []PeerSpec `json:"peers"`  // target client: Peers[0] is the client under test
+	ClosePoint    int        `json:"close_point"`
+	During        bool       `json:"during"`
+	DelayUs       int        `json:"delay_us"`
+	Hammer        bool       `json:"hammer"`        // a goroutine hammering WritePacketRTP across the Close
+	Joiner        bool       `json:"joiner"`        // a further reader joins while Close runs
+	PeerTeardown  bool       `json:"peer_teardown"` // parked peers tear down concurrently with the Close
+	Noise         int        `json:"noise"`         // goroutines spinning runtime.Gosched around the Close
+	SlowCbUs      int        `json:"slow_cb_us"`    // packet callbacks take this long (a slow handler keeps the delivering goroutine busy)
+	Procs         int        `json:"procs"`         // GOMAXPROCS
+	WriteTimeout  int        `json:"write_timeout_ms"`
+	ServerKind    string     `json:"server_kind,omitempty"`     // target client: "real" | "mute" | "stall" | "script"
+	BurstStep     int        `json:"burst_step,omitempty"`      // script server: the burst goes out with the answer to the request of this number
+	Burst         []string   `json:"burst,omitempty"`           // script server: req-options | req-setparam | req-getparam | frame | frame-bad-channel | response-stray | garbage
+	BurstFirst    bool       `json:"burst_first,omitempty"`     // the burst precedes the answer in the write
+	Blackhole     bool       `json:"blackhole,omitempty"`       // client: inbound UDP datagrams are dropped at its packet conns (automatic switch to TCP after InitialUDPReadTimeout)
+	ScriptSetup   string     `json:"script_setup,omitempty"`    // script server: answer to a UDP SETUP: "461" | "tcp-answer" | "udp-silent" (UDP accepted, nothing ever sent)
+	UDPCollide    int        `json:"udp_collide,omitempty"`     // client peers: this many ListenPacket calls for an ODD port fail (the RTCP port of a candidate pair is busy)
+	UDPBlockers   int        `json:"udp_blockers,omitempty"`    // client peers: UDPSourcePortRange of 8 pairs with this many odd ports really occupied
+	ExplicitBusy  bool       `json:"explicit_busy,omitempty"`   // client peers: a first SETUP with explicit ports whose RTCP port is occupied
+	SrvListenFail int        `json:"srv_listen_fail,omitempty"` // server: its Nth ListenPacket call fails (1, 2 = the UDP listeners of Start; on Linux the multicast writers do not go through ListenPacket)
+	SrvTCPFail    bool       `json:"srv_tcp_fail,omitempty"`    // server: net.Listen fails (after the UDP listeners were opened)
+	Redirect      bool       `json:"redirect,omitempty"`        // script server: the first DESCRIBE is answered with 302 to another path
+	Seed          uint64     `json:"seed"`
 }
 
 // Outcome is what the child reports for one scenario.
@@ -61,6 +66,8 @@ type Outcome struct {
 	CloseMs     float64        `json:"close_ms"`
 	BoundMs     float64        `json:"bound_ms"`
 	Persistent  bool           `json:"persistent_leak,omitempty"` // what is left at the end is still there after 8 more seconds
+	Sockets     [2]int         `json:"sockets"`                   // socket descriptors of the process before the scenario / after everything was closed
+	NotClosed   []string       `json:"not_closed,omitempty"`      // sockets handed to the closed object (Listen / Accept / Dial / ListenPacket hooks) that are still open after its Close
 	Hang        bool           `json:"hang"`
 	HangDump    string         `json:"hang_dump,omitempty"`
 	BlockedAt   []string       `json:"blocked_at_close_return"` // goroutines of the closed object's side parked at a blocking operation at the instant Close returned
